@@ -1,6 +1,6 @@
 use crate::json::J;
 use rustc_hir::def_id::DefId;
-use rustc_middle::ty::print::{with_no_trimmed_paths, with_no_visible_paths};
+use rustc_middle::ty::print::with_no_trimmed_paths;
 use rustc_middle::ty::{self, GenericArgsRef, Ty, TyCtxt};
 use rustc_span::Span;
 
@@ -65,18 +65,46 @@ pub fn loc_s(tcx: TyCtxt<'_>, span: Span) -> String {
 
 pub fn def_path(tcx: TyCtxt<'_>, did: DefId) -> String {
     let krate = tcx.crate_name(did.krate).to_string();
-    // workspace items are named by their definition path (not by a re-export), everything else by its visible path
-    let ws = did.is_local() || krate.starts_with("rsbdd");
-    let p = if ws {
-        with_no_visible_paths!(with_no_trimmed_paths!(tcx.def_path_str(did)))
-    } else {
-        with_no_trimmed_paths!(tcx.def_path_str(did))
-    };
+    if !did.is_local() && krate.starts_with("rsbdd") {
+        // items of another workspace crate: name them by their definition path, not by a re-export
+        if let Some(p) = definition_path(tcx, did) {
+            return p;
+        }
+    }
+    let p = with_no_trimmed_paths!(tcx.def_path_str(did));
     if did.is_local() {
         format!("{}::{}", krate, p)
     } else {
         p
     }
+}
+
+fn definition_path(tcx: TyCtxt<'_>, did: DefId) -> Option<String> {
+    use rustc_hir::definitions::DefPathData;
+    let krate = tcx.crate_name(did.krate).to_string();
+    if let Some(assoc) = tcx.opt_associated_item(did) {
+        if matches!(assoc.container, ty::AssocContainer::InherentImpl) {
+            let imp = tcx.parent(did);
+            let self_ty = tcx.type_of(imp).instantiate_identity().skip_norm_wip();
+            if let ty::Adt(adt, _) = self_ty.kind() {
+                let base = definition_path(tcx, adt.did())?;
+                return Some(format!("{}::{}", base, tcx.item_name(did)));
+            }
+        }
+        return None;
+    }
+    let dp = tcx.def_path(did);
+    let mut out = krate;
+    for seg in dp.data.iter() {
+        match seg.data {
+            DefPathData::TypeNs(name) | DefPathData::ValueNs(name) => {
+                out.push_str("::");
+                out.push_str(name.as_str());
+            }
+            _ => return None,
+        }
+    }
+    Some(out)
 }
 
 pub fn ty_s<'tcx>(_tcx: TyCtxt<'tcx>, ty: Ty<'tcx>) -> String {
